@@ -372,13 +372,13 @@ class ChoiceList(BaseColumnType):
       # If it's a string that looks like JSON, try to parse it as such.
       if value.startswith('['):
         try:
-          return tuple(str(item) for item in json.loads(value))
+          return tuple(str(item) for item in json.loads(value)) or None
         except Exception:
           pass
       return value
     else:
       # Accepts other kinds of iterables; if that doesn't work, fail the conversion too.
-      return tuple(str(item) for item in value)
+      return tuple(str(item) for item in value) or None
 
   @classmethod
   def is_right_type(cls, value):
